@@ -1,5 +1,6 @@
 """C05 - percentage phrases compute the textbook formulas. DESIGN.md 3.C05."""
 
+import re
 from fractions import Fraction
 
 from . import lex, mon
@@ -36,7 +37,10 @@ def money_literal(rng, canon, code, sep, neg):
         k = rng.choice(['k', 'M'])
         return '%s%s%s %s' % (sign, lit, k, code), (1000 if k == 'k' else 1000000)
     c = code.upper() if rng.random() < 0.3 else code
-    return '%s%s%s%s' % (sign, lit, rng.choice([' ', '', ' ']), c), 1
+    text = '%s%s%s%s' % (sign, lit, rng.choice([' ', '', ' ']), c)
+    if re.match(r'[-+]?0[xX][0-9a-fA-F]|[-+]?0[oO][0-7]|[-+]?0[bB][01]', text):
+        text = '%s%s %s' % (sign, lit, c)            # '0xaf', '0xbt': a based literal (C13); zero francs need the blank
+    return text, 1
 
 
 def pct_literal(rng, canon, sep, neg):
@@ -49,7 +53,11 @@ def run_shard(ctx):
     rng = ctx.rng
     res = ctx.res
     drv = ctx.driver(rw=True)
-    codes = lex.rated_codes()
+    rated = lex.rated_codes()
+    zone_names = {z.lower() for z in lex.zones()}
+    # a percentage of an amount needs no exchange rate: every configured currency is used, rated or not (codes that are also zone
+    # abbreviations or other words of the language are lexically ambiguous and left out, as in C06)
+    all_codes = sorted(c for c in lex.currencies() if c not in zone_names and c not in lex.all_words('en') - set(lex.currencies()))
     while not ctx.out_of_time():
         sep = rng.choice(SEP_CONFIGS) if rng.random() < 0.5 else SEP_CONFIGS[0]
         cfg = mon.cfg_with(dec=sep[0], thou=sep[1])
@@ -60,7 +68,7 @@ def run_shard(ctx):
             xneg = rng.random() < 0.15
             pneg = rng.random() < 0.12
             money = rng.random() < 0.45
-            code = rng.choice(codes)
+            code = rng.choice(rated) if rng.random() < 0.6 else rng.choice(all_codes)
             if money:
                 xt, mult = money_literal(rng, xs, code, sep, xneg)
             else:
@@ -80,11 +88,18 @@ def run_shard(ctx):
             elif rv < 0.27:
                 prelude, xt, pt, via = 'zq = %s\nwv = %s\n' % (xt, pt), 'zq', 'wv', 'both-variables'
             want_kind = 'money' if money else 'number'
+            # 'X + p%' / 'X - p%': the operator may be typed without blanks, also directly in front of the percentage
+            glue = rng.choice(['%s %s %s', '%s %s %s', '%s %s %s', '%s %s%s', '%s%s%s', '%s%s %s']) if (not pneg and via != 'percent-variable' and via != 'both-variables') else '%s %s %s'
+            if glue != '%s %s %s' and form in ('plus', 'minus'):
+                via_note = 'glued-operator'
+            else:
+                via_note = None
+                glue = '%s %s %s'
             if form == 'plus':
-                text = '%s + %s' % (xt, pt)
+                text = glue % (xt, '+', pt)
                 want, scale = X * (1 + p / 100), abs(X) + abs(X * p / 100)
             elif form == 'minus':
-                text = '%s - %s' % (xt, pt)
+                text = glue % (xt, '-', pt)
                 want, scale = X * (1 - p / 100), abs(X) + abs(X * p / 100)
             elif form in ('of', 'of_r'):
                 text = '%s of %s' % ((pt, xt) if form == 'of' else (xt, pt))
@@ -114,6 +129,10 @@ def run_shard(ctx):
                 text = text.replace(' is ', ' IS ').replace(' of ', ' Of ').replace(' on ', ' ON ').replace(' off ', ' Off ').replace('what', 'What')
             text = prelude + text
             items.append(('en', text))
+            if via_note and via == 'literal':
+                via = via_note
+            if money:
+                res.cover('currency of the amount', code, len(all_codes))
             meta.append((text, form + ('' if via == 'literal' else ':' + via), want_kind, code if money else None, want, scale))
         rs = mon.run_lines(drv, cfg, items)
         for (text, form, want_kind, code, want, scale), r in zip(meta, rs):
